@@ -290,6 +290,21 @@ class ChainSuite(Suite):
                 res["rows"] = [[os.path.relpath(t.source, rt).replace(os.sep, "/") for t, rt in zip(pp[i], (r1, r2))] for i in range(len(pp))]
                 res["rows_len"] = len(pp)
                 res["root_style"] = style
+                # without intersection but with `check_same=True`: directories whose file sets differ must not be paired row by row
+                try:
+                    with warnings.catch_warnings():
+                        warnings.simplefilter("ignore")
+                        pc = Populations.from_swc([r1, r2], intersect=False, check_same=True)
+                        res["check_same"] = [[os.path.relpath(t.source, rt).replace(os.sep, "/") for t, rt in zip(pc[i], (r1, r2))] for i in range(len(pc))]
+                except AssertionError as e:
+                    res["check_same"] = "refused: " + str(e)[:60]
+                # … and identical file sets are accepted and paired by name
+                write_dir(os.path.join(same, "q1"), ["a.swc", "b.swc", "sub/n1.swc"], marker0=0)
+                write_dir(os.path.join(same, "q2"), ["a.swc", "b.swc", "sub/n1.swc"], marker0=100)
+                pq = Populations.from_swc([os.path.join(same, "q1"), os.path.join(same, "q2")], intersect=False, check_same=True)
+                res["check_same_ok"] = [[os.path.relpath(t.source, rt).replace(os.sep, "/") for t, rt in zip(pq[i], (os.path.join(same, "q1"), os.path.join(same, "q2")))]
+                                        for i in range(len(pq))]
+                res["n_pops"] = [pq.num_of_populations(), len([row for row in pq])]
             return res
         finally:
             shutil.rmtree(tmp, ignore_errors=True)
@@ -330,6 +345,13 @@ class ChainSuite(Suite):
         e_ = res["eswc"]
         if e_["len"] != 3 or sorted(e_["x"]) != [0.0, 1.0, 2.0] or sorted(map(tuple, e_["fv"])) != [(10.0, 20.0), (11.0, 21.0), (12.0, 22.0)]:
             out.append(("population-eswc", f"Population.from_eswc: {e_}"))
+        cs = res.get("check_same")
+        if isinstance(cs, list) and any(len(set(r)) != 1 for r in cs):
+            bad = next(r for r in cs if len(set(r)) != 1)
+            out.append(("populations-rows/check-same", f"Populations.from_swc(check_same=True) on directories with different file sets returned the row {bad}: differently named files in one row (it should refuse)"))
+        ok = res.get("check_same_ok")
+        if ok is not None and (len(ok) != 3 or any(len(set(r)) != 1 for r in ok) or res.get("n_pops") != [2, 3]):
+            out.append(("populations-rows", f"Populations.from_swc(check_same=True) on identical directories: rows {ok}, populations / rows iterated {res.get('n_pops')}"))
         want = ["a.swc", "b.swc", "c.swc", "sub/deep/n2.swc", "sub/n1.swc"]
         if res["rows_len"] != len(want) or any(len(set(r)) != 1 for r in res["rows"]) or sorted(r[0] for r in res["rows"]) != want:
             out.append(("populations-rows", f"rows of Populations.from_swc (root spelling {res.get('root_style')}): {res['rows']}; the files present under both roots are {want}"))
